@@ -61,6 +61,7 @@ def validate_index (_self : Obj) (index strict : PV) (len : Nat) : PV :=
 def maybe_promote (self other : Obj) (same selfC otherC otherSubSelf selfSubOther selfPlain otherPlain otherIsList : Bool) :
     Res RefRes :=
   let d := promoteDecision same selfC otherC otherSubSelf selfSubOther selfPlain otherPlain otherIsList
-  .ok { d with state := if d.ref = "self" then self else other }
+  .ok { d with state := if d.ref = "self" then self
+                        else if eSafe (decFlags other) then other else Obj.set other "_safe" (.bool false) }
 
 end AY.Tie.Fallback
